@@ -35,6 +35,7 @@ import (
 	"strconv"
 	"strings"
 	"sync"
+	"sync/atomic"
 	"time"
 	"unsafe"
 
@@ -443,12 +444,13 @@ func (p *mockProvider) Acquire() (core.Ammo, bool) {
 func (p *mockProvider) Release(core.Ammo) {}
 
 type mockGun struct {
-	cfg  aggRun
-	w    *vt.Writer
-	g    int
-	i    int
-	r    *rand.Rand
-	aggr core.Aggregator
+	cfg      aggRun
+	w        *vt.Writer
+	g        int
+	i        int
+	r        *rand.Rand
+	aggr     core.Aggregator
+	returned *int64 // Report calls that have returned (all guns of the run)
 }
 
 func (g *mockGun) Bind(a core.Aggregator, deps core.GunDeps) error {
@@ -459,21 +461,28 @@ func (g *mockGun) Bind(a core.Aggregator, deps core.GunDeps) error {
 func (g *mockGun) Shoot(core.Ammo) {
 	g.i++
 	abs, s := g.cfg.sample(g.r, g.g, g.i)
+	if g.cfg.via == "cancel" {
+		time.Sleep(time.Duration(20+g.r.Intn(180)) * time.Microsecond) // the shot
+	}
 	g.w.Emit(map[string]interface{}{"ev": "Report", "run": g.cfg.run, "g": g.g, "i": g.i, "s": abs})
 	g.aggr.Report(s)
+	atomic.AddInt64(g.returned, 1)
 }
 
 func runEngine(cfg aggRun, w *vt.Writer, seed int64) {
 	w.Emit(map[string]interface{}{"ev": "Run", "run": cfg.run, "kind": cfg.kind, "ids": cfg.ids, "k": cfg.k,
-		"q": cfg.q, "flush_ms": cfg.flushMs, "via": cfg.via, "mode": "engine"})
+		"q": cfg.q, "flush_ms": cfg.flushMs, "via": cfg.via, "mode": cfg.via})
 	a, content := buildAggregator(cfg, w)
 	rc := &runCapture{a, make(chan error, 1)}
 	total := 0
 	for _, n := range cfg.per {
 		total += n
 	}
-	var gunSeq int64
+	var gunSeq, returned int64
 	var mu sync.Mutex
+	if cfg.via == "cancel" {
+		total = 2000 // the run is stopped by the cancel, not by the end of ammo
+	}
 	pool := engine.InstancePoolConfig{
 		ID:         "p",
 		Provider:   &mockProvider{left: total},
@@ -483,7 +492,7 @@ func runEngine(cfg aggRun, w *vt.Writer, seed int64) {
 			gunSeq++
 			n := gunSeq
 			mu.Unlock()
-			return &mockGun{cfg: cfg, w: w, r: rand.New(rand.NewSource(seed*1000 + n))}, nil
+			return &mockGun{cfg: cfg, w: w, r: rand.New(rand.NewSource(seed*1000 + n)), returned: &returned}, nil
 		},
 		RPSPerInstance:  false,
 		NewRPSSchedule:  func() (core.Schedule, error) { return schedule.NewUnlimited(time.Hour), nil },
@@ -498,10 +507,27 @@ func runEngine(cfg aggRun, w *vt.Writer, seed int64) {
 	go func() { res <- e.Run(ctx) }()
 	var engErr error
 	timeout := false
+	if cfg.via == "cancel" {
+		// the run is cancelled from outside at a seeded instant (what SIGINT does, in process):
+		// Engine.Run returns at once, Engine.Wait() waits for the started tasks
+		time.Sleep(time.Duration(cfg.delayUs) * time.Microsecond)
+		before := atomic.LoadInt64(&returned) // read BEFORE the cancel: all of them were made before it
+		w.Emit(map[string]interface{}{"ev": "Cancel", "run": cfg.run, "returned_before": vt.Small(before)})
+		cancel()
+	}
 	select {
 	case engErr = <-res:
 	case <-time.After(60 * time.Second):
 		timeout = true
+	}
+	if cfg.via == "cancel" && !timeout {
+		waited := make(chan struct{})
+		go func() { e.Wait(); close(waited) }()
+		select {
+		case <-waited:
+		case <-time.After(60 * time.Second):
+			timeout = true
+		}
 	}
 	// the engine cancelled the aggregator itself (all instances awaited); Engine.Run returning nil
 	// implies the aggregator's Run was awaited
@@ -532,7 +558,8 @@ func aggMain(args []string) {
 	fs := flag.NewFlagSet("agg", flag.ExitOnError)
 	out := fs.String("out", "agg.ndjson", "trace file")
 	runs := fs.Int("runs", 300, "direct runs")
-	engRuns := fs.Int("engine", 20, "engine runs")
+	engRuns := fs.Int("engine", 20, "engine runs that end by themselves")
+	cancelRuns := fs.Int("cancel", 20, "engine runs cancelled from outside at a seeded instant")
 	par := fs.Int("par", 4, "runs in flight")
 	fs.Parse(args)
 	seed := aggSeed()
@@ -542,9 +569,11 @@ func aggMain(args []string) {
 	qs := []int{1, 1, 2, 3, 4, 8, 16, 64}
 	flushes := []int{1, 1, 2, 5, 20, 100, 1000}
 	var cfgs []aggRun
-	for n := 0; n < *runs+*engRuns; n++ {
+	for n := 0; n < *runs+*engRuns+*cancelRuns; n++ {
 		cfg := aggRun{run: n + 1, via: "direct"}
-		if n >= *runs {
+		if n >= *runs+*engRuns {
+			cfg.via = "cancel"
+		} else if n >= *runs {
 			cfg.via = "engine"
 		}
 		if r.Intn(2) == 0 {
@@ -608,6 +637,13 @@ func aggMain(args []string) {
 				cfg.q = total + 1
 			}
 		}
+		if cfg.via == "cancel" {
+			// a blocking Report after the aggregator has returned must find room (default queue: 256 K)
+			if cfg.kind == "phout" {
+				cfg.q = 4096
+			}
+			cfg.delayUs = 200 + r.Intn(6000)
+		}
 		cfgs = append(cfgs, cfg)
 	}
 	sem := make(chan struct{}, *par)
@@ -618,7 +654,7 @@ func aggMain(args []string) {
 		go func(cfg aggRun) {
 			defer wg.Done()
 			defer func() { <-sem }()
-			if cfg.via == "engine" {
+			if cfg.via != "direct" {
 				runEngine(cfg, w, seed*100000+int64(cfg.run))
 			} else {
 				runDirect(cfg, w, seed*100000+int64(cfg.run))
